@@ -13,10 +13,8 @@
 /// The execution path may also differ, which can be used to refine the stub
 /// logic.
 #[test]
-fn kani_concrete_playback_c19_str_duration_sum_of_terms_1413724755218189593() {
+fn kani_concrete_playback_c19_str_duration_sum_of_terms_1164713904449950960() {
     let concrete_vals: Vec<Vec<u8>> = vec![
-        // 0
-        vec![0],
         // 4
         vec![4],
         // 7
